@@ -40,8 +40,9 @@ def main(argv=None):
     s.add_argument("--props", default="")
     a = ap.parse_args(argv)
 
-    from . import runner, world
+    from . import runner, world, ops
 
+    ops.install_unraisable_hook()
     try:
         if a.cmd == "check":
             return runner.run_check(a.prop.upper(), tier=a.tier, base_seed=a.seed, n=a.n, workers=a.workers, write_evidence=not a.no_evidence)
